@@ -69,6 +69,8 @@ def pow(potential_forms, potential_form_builder):
 
   :returns: Potential callable that takes the product of a number of potential instances."""
   from atsim.potentials import pow
+  if len(potential_forms) < 2:
+    raise ConfigurationException("pow() potential modifier requires at least two arguments")
   mod = _modifier_from_func_reduce("pow", pow, potential_forms, potential_form_builder)
   return mod
 
